@@ -241,6 +241,13 @@ where
         self.write_alignment_record(header, record)
     }
 
+    /// Sets the number of records per slice and slices per container (verification hook).
+    #[cfg(noodles_verif)]
+    pub fn verif_set_layout(&mut self, records_per_slice: usize, slices_per_container: usize) {
+        self.context.records_per_slice = records_per_slice;
+        self.records = Vec::with_capacity(records_per_slice * slices_per_container);
+    }
+
     fn add_record(&mut self, header: &sam::Header, record: Record) -> io::Result<()> {
         self.records.push(record);
 
